@@ -31,6 +31,9 @@ SWITCHES = ("tilt_x", "tilt_y", "tilt_z", "wedge", "chi", "t_x", "t_y", "t_z")
 # ------------------------------------------------------------------------------------------------
 # TLC
 
+EXPECTED_RECORDS = {"fwd_corner": 2048, "fwd_t": 262144}
+
+
 def run_geometry(chk, name, cfg, workers=16, simulate=None, depth=None, coverage=False, actions=(), timeout=2400):
     """run specs/Geometry_<cfg>.cfg; account it; return the list of emitted records"""
     path = os.path.join(common.SPECS, "Geometry_%s.cfg" % cfg)
@@ -50,6 +53,9 @@ def run_geometry(chk, name, cfg, workers=16, simulate=None, depth=None, coverage
             bad += 1
     if bad:
         raise common.MachineryError("%d unparsable TLC output lines in run %s" % (bad, name))
+    want = EXPECTED_RECORDS.get(cfg) if simulate is None else simulate * workers
+    if want is not None and len(recs) != want:
+        raise common.MachineryError("run %s emitted %d records, expected %d" % (name, len(recs), want))
     if coverage:
         chk.notes.setdefault("action_coverage", {})[name] = {a: res.coverage.get(a, (0, 0))[1] for a in actions}
     return recs
@@ -112,8 +118,9 @@ class Oracle(object):
         self.par = recs[0]["par"]
         self.P = pars_of(self.par)
         self.lam = self.P["wavelength"]
-        self.sc = np.array([float(r["par"]["sc"]) for r in recs])
-        self.fc = np.array([float(r["par"]["fc"]) for r in recs])
+        # peak positions are rationals sc/pden (the nearest double is handed to the code)
+        self.sc = np.array([r["par"]["sc"] / float(r["par"]["pden"]) for r in recs])
+        self.fc = np.array([r["par"]["fc"] / float(r["par"]["pden"]) for r in recs])
         self.omega = np.array([ang_deg(r["par"]["omega"]) for r in recs])      # as stored in a peak file
         self.oms = self.omega * self.P["omegasign"]                             # signed, what the slow routes get
         self.xyz = np.zeros((n, 3))
@@ -264,6 +271,24 @@ class Routes(object):
 
 class _Grain(object):
     pass
+
+
+class omp_threads(object):
+    """context manager: run the OpenMP kernels with n threads, restore the previous setting afterwards"""
+
+    def __init__(self, rt, n):
+        self.c = rt.c
+        self.n = n
+
+    def __enter__(self):
+        self.old = self.c.cimaged11_omp_get_max_threads()
+        if self.n:
+            self.c.cimaged11_omp_set_num_threads(int(self.n))
+        return self
+
+    def __exit__(self, *a):
+        self.c.cimaged11_omp_set_num_threads(self.old)
+        return False
 
 
 def exact_rmat(par):
